@@ -226,27 +226,77 @@ theorem env_level_position :
 theorem cast_kind_stable (old y : Leaf) (s : List Char) (h : castLeaf old s = .ok y) (s' : List Char) :
     castLeaf y s' = castLeaf old s' := castLeaf_kind_stable old y s h s'
 
-/-- RELOAD.  `load` sees the configuration only through its leaf paths and through how each leaf casts: two
-    configurations with the same settings whose values cast alike — e.g. the merged view with and without the env
-    level of an earlier load, as long as the OTHER levels still define every setting — give the same result
-    under every environment: the env level after a reload depends on the environment of that moment only -/
-theorem reload_env_determined (pre : List Char) (environ : Environ) (c c' : KVs)
+/-- `load` sees the configuration only through its leaf paths and through how each leaf casts: two
+    configurations with the same settings whose values cast alike give the same result under every environment -/
+theorem load_depends_on_paths_and_casts (pre : List Char) (environ : Environ) (c c' : KVs)
     (hpaths : leafPaths [] c = leafPaths [] c')
     (hcast : ∀ p ∈ leafPaths [] c, ∀ s, castAt c p s = castAt c' p s) :
     loadEnv pre environ c = loadEnv pre environ c' := loadEnv_congr_config pre environ c c' hpaths hcast
 
-/-- collection `{a: 1}` and `P_A=5`, load; the collection is replaced by `{b: 2}`; same environment, load again -/
+/-- whatever env level the object carries (from an earlier load, or copied by `clone()`) is irrelevant to
+    `load_shell_env`: the resulting configuration is the same as for an object without one -/
+theorem load_shell_env_ignores_old_env (c : LoadSt) (old : KVs) (pre : List Char) (environ : Environ) :
+    LoadSt.loadShellEnv { c with slots := c.slots.set .env old } pre environ = c.loadShellEnv pre environ := by
+  simp only [LoadSt.loadShellEnv, LoadSt.load, Levels.set_set]
+
+/-- RELOAD (no caveat).  The configuration after ANY `load_shell_env` depends only on what the other levels hold
+    NOW and on the environment NOW: loading under `e₂` after a load under `e₁` is loading under `e₂` directly —
+    also whether, and how, it is refused -/
+theorem reload_env_determined (c c₁ : LoadSt) (pre : List Char) (e₁ e₂ : Environ)
+    (h : c.loadShellEnv pre e₁ = .ok c₁) : c₁.loadShellEnv pre e₂ = c.loadShellEnv pre e₂ := by
+  unfold LoadSt.loadShellEnv at h
+  cases hl : loadEnv pre e₁ (view (c.slots.set .env [])) with
+  | error e => simp [hl] at h
+  | ok ev =>
+    simp only [hl, Except.ok.injEq] at h
+    subst h
+    simp only [LoadSt.loadShellEnv, LoadSt.load, Levels.set_set]
+
+/-- … and other loads in between change the outcome only through the levels they replace: the env level after
+    the second load is computed from the other levels as they are then -/
+theorem reload_after_other_loads (c c₁ : LoadSt) (pre : List Char) (e₁ e₂ : Environ) (l : Level) (d : KVs)
+    (hl : l ≠ .env) (h : c.loadShellEnv pre e₁ = .ok c₁) :
+    (c₁.load l d).loadShellEnv pre e₂ = ({ c with cache := c₁.cache }.load l d).loadShellEnv pre e₂ := by
+  unfold LoadSt.loadShellEnv at h
+  cases hq : loadEnv pre e₁ (view (c.slots.set .env [])) with
+  | error e => simp [hq] at h
+  | ok ev =>
+    simp only [hq, Except.ok.injEq] at h
+    subst h
+    have hne : Level.env ≠ l := fun e => hl e.symm
+    simp only [LoadSt.loadShellEnv, LoadSt.load]
+    rw [Levels.set_comm c.slots hne ev d]
+    simp only [Levels.set_set]
+
+/-- collection `{a: 1}` and `P_A=5`, load; the collection is replaced by `{b: 2}`; same environment, load again —
+    with the rule before the repair -/
+def staleWitnessPinned : Except CErr LoadSt :=
+  match (LoadSt.init.load .collection [(['a'], .leaf (.i 1))]).loadShellEnvPinned ['P', '_'] [(['P', '_', 'A'], ['5'])] with
+  | .error e => .error e
+  | .ok c1 => (c1.load .collection [(['b'], .leaf (.i 2))]).loadShellEnvPinned ['P', '_'] [(['P', '_', 'A'], ['5'])]
+
+/-- the same history with the repaired rule -/
 def staleWitness : Except CErr LoadSt :=
   match (LoadSt.init.load .collection [(['a'], .leaf (.i 1))]).loadShellEnv ['P', '_'] [(['P', '_', 'A'], ['5'])] with
   | .error e => .error e
   | .ok c1 => (c1.load .collection [(['b'], .leaf (.i 2))]).loadShellEnv ['P', '_'] [(['P', '_', 'A'], ['5'])]
 
-/-- RECORDED FINDING (C16-stale-env-premerge), on the model of the code as it is: the pre-merge of `load_shell_env`
-    contains the env level of the previous load, so a setting that no other level defines any more is kept alive by
-    the environment (the hypothesis of `reload_env_determined` is what fails) -/
-theorem stale_env_sustains_setting_counterexample :
-    ∃ c, staleWitness = .ok c ∧ getLeaf [['a']] c.cache = some (.i 5) ∧
+/-- FIXED FINDING (C16-stale-env-premerge), the rule before the repair: the pre-merge of `load_shell_env` contained
+    the env level of the previous load, so a setting that no other level defined any more was kept alive by the
+    environment -/
+theorem stale_env_pinned_counterexample :
+    ∃ c, staleWitnessPinned = .ok c ∧ getLeaf [['a']] c.cache = some (.i 5) ∧
       getLeaf [['a']] (view (c.slots.set .env [])) = none := by
+  simp [staleWitnessPinned, LoadSt.loadShellEnvPinned, LoadSt.load, LoadSt.init, Levels.set, Levels.empty, view, viewOf,
+    env_level_position, mergeLevel, mergeT, lookup, insert, loadEnv, crawl, clash, hasVarName, varNames, envVarName,
+    joinUnderscore, upperChar, applyVars, lookupEnv, getLeaf, castLeaf, generated_cast_order_documented, castWith,
+    branchApplies, runBranch, classCall, pyInt, stripSpaces, dropSpaces, isPySpace, signedVal, digitsVal,
+    isAsciiDigit, setLeaf]
+
+/-- the repaired rule on the same history: `a` is gone, `b` is there, nothing was applied -/
+theorem stale_env_repaired_example :
+    ∃ c, staleWitness = .ok c ∧ getLeaf [['a']] c.cache = none ∧ getLeaf [['b']] c.cache = some (.i 2) ∧
+      c.slots .env = [] := by
   simp [staleWitness, LoadSt.loadShellEnv, LoadSt.load, LoadSt.init, Levels.set, Levels.empty, view, viewOf,
     env_level_position, mergeLevel, mergeT, lookup, insert, loadEnv, crawl, clash, hasVarName, varNames, envVarName,
     joinUnderscore, upperChar, applyVars, lookupEnv, getLeaf, castLeaf, generated_cast_order_documented, castWith,
@@ -274,9 +324,9 @@ example : loadEnv ['P', '_'] [] exAmbiguous = .error .ambiguousEnv :=
 example : WF exTree := wfB_sound _ (by decide)
 example : castLeaf (.b true) ['0'] = .ok (.b false) ∧ castLeaf (.b false) ['n', 'o'] = .ok (.b true) :=
   ⟨((env_cast_table _).1 _), ((env_cast_table _).1 _)⟩
-/-- `reload_env_determined` instantiated: `{n: 7}` and `{n: 12}` (an int overridden by an earlier load) reload alike -/
+/-- `load_depends_on_paths_and_casts` instantiated: `{n: 7}` and `{n: 12}` load alike -/
 example (environ : Environ) : loadEnv ['P', '_'] environ [(['n'], .leaf (.i 7))] = loadEnv ['P', '_'] environ [(['n'], .leaf (.i 12))] :=
-  reload_env_determined _ _ _ _ (by simp [leafPaths]) (by
+  load_depends_on_paths_and_casts _ _ _ _ (by simp [leafPaths]) (by
     intro p hp s
     simp only [leafPaths, List.nil_append, List.mem_singleton] at hp
     subst hp
